@@ -37,7 +37,7 @@ ANCHORS = [
 
 def run(ctx):
     ctx.require("parse.argparse", 10)
-    run_kind(ctx, OP, "argparse", ctx.n(4000, 120000), knobs(argparse_domain=True, hostile_strings=not ctx.quick(), p_doc_states_default=0.15, p_hyphen_tokens=0.3, p_return_literal_source=0.25, p_return_none_default=0.12))
+    run_kind(ctx, OP, "argparse", ctx.n(4000, 120000), knobs(argparse_domain=True, hostile_strings=not ctx.quick(), p_doc_states_default=0.15, p_hyphen_tokens=0.3, p_return_literal_source=0.25, p_return_none_default=0.12, p_indented_summary_line=0.3))
 
 
 def replay(payload):
